@@ -3,6 +3,7 @@ EXTENDS BasinGraphSpec
 LocalKinds == {"none", "file", "filemapped"}
 AllKinds == {"none", "file", "filemapped", "remote", "dangling"}
 DisguisedKinds == {"none", "file", "remote", "disguised"}
+EmptyListKinds == {"none", "file", "filemapped", "fileempty"}
 ThreeRids == {"a", "ax", "b"}
 \* "x": a proper suffix of "ax", "i": an inner part of "ax" - contained in the
 \* root's identifier without being a prefix of it (IdMatch: no match)
